@@ -240,9 +240,9 @@ func init() {
 	libN := func(tier string) int64 { return tierN(tier, 40000, 1500000) }
 	cliN := func(tier string) int64 { return tierN(tier, 24, 200) }
 	fw.Register(&fw.Property{
-		ID:    "C12",
-		Level: "exploration",
-		Rule: "case = a pair of random cue lists (0..30 cues each, starts drawn from 1..50 distinct values so equal starts are frequent) and random region/style maps over 4 ids with arbitrary overlap; receiver built by NewSubtitles(), &Subtitles{} (nil maps), teletext-like, or with one map only. Oracle: Order == stable sort (pointer identity); Merge == stable-sorted A++B, union of maps with A winning, B deep-unchanged. CLI: 'astisub merge'. distinct_nontrivial = distinct (A,B) pairs compared.",
+		ID:          "C12",
+		Level:       "exploration",
+		Rule:        "case = a pair of random cue lists (0..30 cues each, starts drawn from 1..50 distinct values so equal starts are frequent) and random region/style maps over 4 ids with arbitrary overlap; receiver built by NewSubtitles(), &Subtitles{} (nil maps), teletext-like, or with one map only. Oracle: Order == stable sort (pointer identity); Merge == stable-sorted A++B, union of maps with A winning, B deep-unchanged. CLI: 'astisub merge'. distinct_nontrivial = distinct (A,B) pairs compared.",
 		Assumptions: []string{"map keys equal the definitions' ids"},
 		Cases:       func(tier string) int64 { return libN(tier) + cliN(tier) },
 		Anchors:     []string{"Subtitles.Order", "Subtitles.Merge", "astisub/main.go merge"},
